@@ -238,6 +238,12 @@ func (w *world) barrierWait(k int, id string, d time.Duration) bool {
 // ---- what the room sends
 
 func (w *world) presence(addr, typ, id string, self bool, status ...int) {
+	w.presenceItem(addr, typ, id, self, "", "", status...)
+}
+
+// presenceItem is presence with the <item/> attributes chosen by the caller
+// ("" = member / participant, or role none on departures).
+func (w *world) presenceItem(addr, typ, id string, self bool, aff, role string, status ...int) {
 	var sb strings.Builder
 	sb.WriteString("<presence from='" + addr + "' to='" + libAddr + "'")
 	if typ == "unavailable" {
@@ -246,11 +252,16 @@ func (w *world) presence(addr, typ, id string, self bool, status ...int) {
 	if id != "" {
 		sb.WriteString(" id='" + id + "'")
 	}
-	role := "participant"
-	if typ == "unavailable" {
-		role = "none"
+	if role == "" {
+		role = "participant"
+		if typ == "unavailable" {
+			role = "none"
+		}
 	}
-	sb.WriteString("><x xmlns='" + nsMUCUser + "'><item affiliation='member' role='" + role + "'/>")
+	if aff == "" {
+		aff = "member"
+	}
+	sb.WriteString("><x xmlns='" + nsMUCUser + "'><item affiliation='" + aff + "' role='" + role + "'/>")
 	for _, s := range status {
 		fmt.Fprintf(&sb, "<status code='%d'/>", s)
 	}
